@@ -176,6 +176,14 @@ def gen_headers(r, n):
     hs = []
     for _ in range(n):
         name = b"X" + rand_token(r, 0, 12)
+        if r.chance(1, 7):
+            # ordinary headers whose names merely begin with (or are cut-off forms of) a framing header's name: they frame nothing
+            name = r.choice([b"Content-Length-Hint", b"Content-Length-Uncompressed", b"Content-Lengthy", b"Content-Lengt",
+                             b"Transfer-Encoding-Supported", b"Transfer-Encodings", b"Transfer-Encodin", b"Connection-Id",
+                             b"Connectio", b"Content-Type", b"Content", b"Transfer"])
+            value = r.choice([b"0", b"3", b"5", b"11", b"chunked", b"gzip, chunked", b"close", b"identity", b"18446744073709551615"])
+            hs.append((name, rand_ows(r), value, rand_ows(r)))
+            continue
         k = r.below(10)
         if k == 0:
             value = b""
